@@ -85,3 +85,23 @@ fn d4_short_writing_sink() {
     lzma_rs::xz_compress(&mut io::BufReader::new(&b"hello"[..]), &mut sink).unwrap();
     assert_eq!(sink.0, reference, "short-writing sink received different bytes");
 }
+
+/// F-C08 (known finding, NOT fixed): with no size in effect, a stream WITHOUT end marker is accepted when
+/// the decoder stands at a symbol boundary with Code == 0 and the input is exhausted.  The test documents
+/// the current behaviour: it passes while the finding exists.
+#[test]
+fn fc08_markerless_stream_is_accepted() {
+    use lzma_rs::{compress, decompress};
+    let data = b"hello world hello world";
+    let mut lzma = Vec::new();
+    let enc = compress::Options { unpacked_size: compress::UnpackedSize::WriteToHeader(Some(data.len() as u64)) };
+    lzma_rs::lzma_compress_with_options(&mut io::BufReader::new(&data[..]), &mut lzma, &enc).unwrap();
+    let dec = decompress::Options {
+        unpacked_size: decompress::UnpackedSize::ReadHeaderButUseProvided(None),
+        ..Default::default()
+    };
+    let mut out = Vec::new();
+    let r = lzma_rs::lzma_decompress_with_options(&mut io::BufReader::new(&lzma[..]), &mut out, &dec);
+    assert!(r.is_ok(), "marker-less stream now rejected: the known finding F-C08 no longer reproduces");
+    assert_eq!(&out[..], &data[..]);
+}
